@@ -529,7 +529,7 @@ func runC03(c *kit.Ctx) {
 				return true
 			}
 			// an exit in the arm that saw c.done closed: the client has failed already (only fail closes done)
-			if _, isRet := in.(*ssa.Return); isRet {
+			if kit.InstrIndex(in) == 0 || in == in.Block().Instrs[len(in.Block().Instrs)-1] {
 				for _, st := range selectArmsAt(in.Block()) {
 					if st.Dir == types.RecvOnly && isLoadOfField(st.Chan, doneF) {
 						return true
